@@ -492,6 +492,20 @@ func cgExec(bin, work string, n int, grp *cgGroup) {
 		if err := os.WriteFile(filepath.Join(dir, "schema_input.yaml"), []byte(grp.yaml), 0o644); err != nil {
 			panic(err)
 		}
+		var staleOut []byte
+		if rep%2 == 1 {
+			// `go generate` re-runs in the directory that already holds the previous output: an older,
+			// longer typedef_output.go must be replaced, not overwritten in place
+			var stale bytes.Buffer
+			stale.WriteString("package arcaflow_plugin_service\n\n")
+			for i := 0; i < 400; i++ {
+				fmt.Fprintf(&stale, "type Stale%d struct {\n\tLeftover%d string `json:\"leftover_%d\"`\n}\n\n", i, i, i)
+			}
+			staleOut = stale.Bytes()
+			if err := os.WriteFile(filepath.Join(dir, "typedef_output.go"), staleOut, 0o644); err != nil {
+				panic(err)
+			}
+		}
 		ctx, cancel := context.WithTimeout(context.Background(), 30*time.Second)
 		cmd := exec.CommandContext(ctx, bin, grp.args...)
 		cmd.Dir = dir
@@ -510,8 +524,8 @@ func cgExec(bin, work string, n int, grp *cgGroup) {
 				run.exit = ee.ExitCode()
 			}
 		}
-		if b, err := os.ReadFile(filepath.Join(dir, "typedef_output.go")); err == nil {
-			run.out = b
+		if b, err := os.ReadFile(filepath.Join(dir, "typedef_output.go")); err == nil && !bytes.Equal(b, staleOut) {
+			run.out = b // (an untouched stale file means: no output written)
 		}
 		grp.runs = append(grp.runs, run)
 		_ = os.RemoveAll(dir)
